@@ -15,6 +15,8 @@
 
 mod barriers;
 pub use barriers::BarrierSelector;
+#[cfg(feature = "verif")]
+pub use barriers::{Barrier as VerifBarrier, BarrierSemantics as VerifBarrierSemantics, ObjectBarrier as VerifObjectBarrier};
 
 mod gc_work;
 
